@@ -190,7 +190,7 @@ func cmdVC(args []string) {
 			ok++
 		}
 		fmt.Printf("%s %-70s %s %s %.2fs [%d B] %s\n", mark, strings.ReplaceAll(r.o.Name, repoPrefix+"/", ""), r.res.Status, r.res.Solver, r.res.Secs, r.res.Size, r.o.Pos)
-		if r.res.Status != "unsat" {
+		if r.res.Status != "unsat" && *verbose {
 			fmt.Printf("       src: %s\n       solvers: %s\n", r.o.Src, trunc(fmt.Sprint(r.res.All), 400))
 		}
 	}
